@@ -173,6 +173,23 @@ fn c02_const_small_subtypes() {{
 {body}}}
 """)
 
+    cars = spec.get("plc_cars")
+    if cars:
+        order = list(cars)
+        body = "\n".join(
+            f'    assert!(t[{i}].1 == {cars[n]}, "IS_PLC car bit {n} is {cars[n]}");' for i, n in enumerate(order))
+        text.append(f"""
+//@ id: const_plc_cars
+//@ prop: C02
+//@ functions: insim/src/insim/plc.rs PlcAllowedCarsSet (bit constants used by from_bits_truncate / bits)
+//@ statement: the 20 car bits of IS_PLC / SMALL_ALC have the specification's values: XF GTI = 1, XR GT = 2, XR GT TURBO = 4 ... FORMULA BMW FB02 = 0x80000 (the constants are private: read through an accessor appended to plc.rs in the scratch copy)
+#[kani::proof]
+fn c02_const_plc_cars() {{
+    let t = PlcAllowedCarsSet::verif_bits_table();
+{body}
+}}
+""")
+
     # ---------------------------------------------------------- header bytes (type, ReqI)
     isp = spec["packet_types"]
     hdr_kinds = []
@@ -272,7 +289,7 @@ fn c02_const_small_subtypes() {{
 //@ timeout: 900
 #[kani::proof]
 #[kani::stub(core::fmt::write, verif_fmt_ok)]
-fn c02_layout_{v.lower()}() {{
+{"#[kani::stub(std::hash::RandomState::new, verif_random_state)]" + chr(10) if g.needs_random_state else ""}fn c02_layout_{v.lower()}() {{
     let p = {val};
 {''.join(f'    kani::assume({a});{chr(10)}' for a in assumes)}    let mut w = Cursor::new(Vec::new());
     let r = p.write_le(&mut w);
